@@ -8,6 +8,9 @@ TECH = "contract-based deductive verification: VCs generated from go/ast+go/type
 
 # property -> (level text, level_note, design_ref)
 CLAIMED = {
+ "C20": ("Every method of the reference Dataset is under a functional contract proved for all inputs: the representation invariant (Count = len(Values), sorted flag implies sortedness, finite values) is established by the constructor and preserved by Add/Merge/queries, Lower/UpperQuantile return NaN exactly for q outside [0,1] (NaN included) or an empty dataset and otherwise the element at index floor/ceil(q*(n-1)) of a sorted permutation of the values (= that order statistic), Min/Max are the extremes, Merge appends the argument's values, Sum is the real sum.",
+         "float64 arithmetic is real arithmetic plus NaN/Inf (A-REAL): the rank q*(n-1) and the sum are exact, so the 'sum accurate to rounding' clause and float rounding of the rank are not decided; sort.Float64s is trusted (sorted permutation); values are assumed finite (NaN values excluded); exported fields are assumed to be written only by the methods.",
+         "DESIGN 4 C20"),
  "C18": ("All obligations (pre/post/loop-unwinding/bounds/frame) of every codec function in package encoding are discharged bit-precisely (64/8-bit vectors, IEEE binary64) for all inputs; round-trip, prefix/EOF, framing and size-table facts are postconditions and SMT lemmas over the spec functions written from the doc comments.",
          "Trusted: generator semantics for the Go subset, models of append/binary.LittleEndian/math.Float64bits/bits.*; NaN payloads are not distinguished (one NaN); size tables: no writer other than the init functions (unexported package variables, checked by the generator refusing assignments to package-level variables).",
          "DESIGN 4 C18"),
